@@ -185,11 +185,15 @@ def r5(c):
     for f in ('rodbus::common::serialize::calc_bytes_for_bits', 'rodbus::common::serialize::calc_bytes_for_registers'):
         b = P.fn(f)
         tf = [cs for cs in b.calls() if cs.declared == 'core::convert::TryFrom::try_from' and 'u8' in cs.gargs]
-        xs = q.exits(b)
-        ok = len(tf) == 1 and len(xs) == 1
-        if ok:
-            cl = b.op_closure({'k': 'copy', 'pl': {'l': 0, 'p': []}})
-            ok = any(x[0] == 'call' and x[2] == tf[0].block for x in cl)
+        xs = [x for x in q.exits(b) if not q.exit_is_failure(b, x)]
+        ok = len(tf) == 1 and bool(xs)
+        for x in xs:
+            v = q.exit_sem(b, x)
+            if v.kind == 'agg' and isinstance(v.extra, dict) and v.extra.get('variant') == 'Ok' and v.extra.get('a'):
+                p_ = q.sem(b, v.extra['a'][0])
+                ok = ok and p_.kind == 'call' and p_.cs is tf[0] and q.has_success(p_.proj)      # Ok(the converted value)
+            else:
+                ok = ok and v.kind == 'call' and v.cs is tf[0] and not v.proj                      # the conversion's own result
         c.ob('byte-count/%s' % f.rsplit('::', 1)[-1], ok, '%s returns through u8::try_from (no silent truncation of the byte count)' % f, '', loc_of(b))
     for ty, fn_ in (('bool', 'calc_bytes_for_bits'), ('u16', 'calc_bytes_for_registers')):
         b = P.fn('<&[%s] as rodbus::common::traits::Serialize>::serialize' % ty)
